@@ -395,7 +395,8 @@ namespace avel {
         [[nodiscard]]
         AVEL_FINL explicit operator mask() const {
             auto t = _mm512_castpd_si512(content);
-            return mask{_mm512_test_epi64_mask(t, t)};
+            (void) t;
+            return mask{_mm512_cmp_pd_mask(content, _mm512_setzero_pd(), _CMP_NEQ_UQ)};
         }
 
     };
